@@ -35,3 +35,14 @@ package linker
 //@ lemma chunkOrderArray_Less_total C08: forall a chunkOrderArray, i int, j int ::
 //@     0 <= i && i < len(a) && 0 <= j && j < len(a) && !a.Less(i, j) && !a.Less(j, i) ==> a[i].distance == a[j].distance && a[i].tieBreaker == a[j].tieBreaker
 
+
+// ----------------------------------------------------------------------------------------------
+// C09 (F11): the linker works on shallow clones of the cached ASTs; a statement node reached from
+// the (cloned) statement list still belongs to the cache. mergeAdjacentLocalStmts may therefore
+// extend the declaration list of an SLocal only if that SLocal is the private clone it created.
+//@ func mergeAdjacentLocalStmts
+//@   arith int
+//@   prop C09
+//@   site own-node: store SLocal.Decls requires fresh(target)
+//@   loop 0 invariant 1 <= end && end <= len(stmts) && end <= rangeindex + 2
+//@   loop 0 invariant didMergeWithPreviousLocal ==> is(stmts[end-1].Data, *js_ast.SLocal) && fresh(stmts[end-1].Data.(*js_ast.SLocal))
